@@ -118,6 +118,13 @@ static void gen_decl(vf::Src& src, Case& c, const DeclOpts& o)
             }
         }
         e.env_bound = o.env && src.coin(60);
+        // now and then two entries read the same variable
+        if (e.env_bound && i > 0 && src.coin(12))
+        {
+            int a = src.irange(0, i - 1);
+            if (c.e[static_cast<std::size_t>(a)].env_bound && c.e[static_cast<std::size_t>(a)].env_alias < 0)
+                e.env_alias = a;
+        }
         e.group = src.coin(30) ? src.irange(1, 2) : 0;
         c.e.push_back(e);
     }
